@@ -39,12 +39,14 @@ type Clause struct {
 	Hint bool
 	TmplVar   string
 	TmplTypes []string
+	NameOnly  bool // "names" clause
 }
 
 type FuncContract struct {
 	Key        string // as written: Name, (*T).M, (T).M, Iface.M
 	Recv       string // T (without star) or ""
 	RecvPtr    bool
+	Anon       int // k > 0: the k-th function literal (source order, top level) inside the named function: Name$k
 	Name       string
 	Props      []string
 	Requires   []*Clause
@@ -105,7 +107,7 @@ type PkgContracts struct {
 	Raw     string
 }
 
-var kwRe = regexp.MustCompile(`^(import|func|property|requires|ensures|modifies|loop|may_panic|trusted|nosafety|timeout|spec|lemma|axiom|panics|table|nooverflow|closed|hint|uses|reveals)\b`)
+var kwRe = regexp.MustCompile(`^(import|func|property|requires|names|ensures|modifies|loop|may_panic|trusted|nosafety|timeout|spec|lemma|axiom|panics|table|nooverflow|closed|hint|uses|reveals)\b`)
 
 func parseContractFile(path string) (*PkgContracts, error) {
 	f, err := os.Open(path)
@@ -242,11 +244,17 @@ func parseContractFile(path string) (*PkgContracts, error) {
 				curTable.Props = append(curTable.Props, ps...)
 			}
 			last = nil
-		case "requires", "ensures", "modifies", "panics":
+		case "requires", "ensures", "modifies", "panics", "names":
 			if cur == nil {
 				return nil, fmt.Errorf("%s:%d: clause outside func", path, ln)
 			}
 			cl := &Clause{Kind: m, Text: rest, Line: ln, File: path}
+			if m == "names" {
+				// names res == f(args): gives the result a name (f uninterpreted) for use in callers' contracts;
+				// assumed at call sites, not an obligation of the body
+				cl.Kind, cl.NameOnly = "ensures", true
+				m = "ensures"
+			}
 			// clause template:  ensures[T: int8|int16|...] P(T)  -> one clause per listed type
 			if strings.HasPrefix(rest, "[") {
 				j := strings.Index(rest, "]")
@@ -420,6 +428,14 @@ func matchParen(s string, i int) int {
 
 func parseFuncKey(fc *FuncContract) error {
 	k := strings.TrimSpace(fc.Key)
+	if i := strings.LastIndex(k, "$"); i >= 0 {
+		n := 0
+		if _, err := fmt.Sscanf(k[i+1:], "%d", &n); err != nil || n < 1 {
+			return fmt.Errorf("bad function literal ordinal in %q", k)
+		}
+		fc.Anon = n
+		k = k[:i]
+	}
 	if strings.HasPrefix(k, "(") {
 		j := strings.Index(k, ")")
 		if j < 0 || j+1 >= len(k) || k[j+1] != '.' {
